@@ -196,8 +196,8 @@ impl Driver for KvBin {
         let status = *r.pick(&[0u16, 99, 100, 199, 200, 204, 299, 304, 418, 451, 599, 600, 999, u16::MAX]);
         let mut headers: Vec<HttpHeader> = (0..r.below(4)).map(|_| HttpHeader { name: r.pick(&odd).to_string(), value: r.pick(&odd).to_string() }).collect();
         // a declared length that has nothing to do with the body (the shell relays whatever the server said)
-        if r.coin(1, 3) { headers.push(HttpHeader { name: r.pick(&["content-length", "Content-Length"]).to_string(),
-            value: r.pick(&["18446744073709551615", "9223372036854775808", "99999999999999", "4294967296", "-1", "0", "1e9", "", "12 "]).to_string() }); }
+        if r.coin(1, 2) { headers.push(HttpHeader { name: r.pick(&["content-length", "Content-Length"]).to_string(),
+            value: r.pick(&["18446744073709551615", "9223372036854775808", "18446744073709551615", "99999999999999", "-1", "0", "12 "]).to_string() }); }
         let body = match r.below(4) { 0 => vec![], 1 => vec![0xff; 100_000], 2 => "\u{feff}bom".as_bytes().to_vec(), _ => wire_common::arb::Blob::arb(r).0 };
         bridge_opts().serialize(&HttpResult::Ok(HttpResponse { status, headers, body })).unwrap()
     }
